@@ -10,8 +10,8 @@ RECURSIVE Seqs(_)
 Seqs(n) == IF n = 0 THEN {<<>>} ELSE Seqs(n - 1) \cup { Append(s, r) : s \in { t \in Seqs(n - 1) : Len(t) = n - 1 }, r \in Results }
 \* a script ends with its first error / EOF (what follows would never be read)
 Sane(s) == \A k \in 1..Len(s) : s[k].err # "nil" => k = Len(s)
-MCScripts == { [reads |-> s, wbad |-> b, wmode |-> m] : s \in { t \in Seqs(MaxReads) : Sane(t) }, b \in 0..2, m \in {"short", "err"} }
-             \ { x \in { [reads |-> s, wbad |-> 0, wmode |-> "err"] : s \in Seqs(MaxReads) } : TRUE }
+MCScripts == { x \in { [reads |-> s, wbad |-> b, wmode |-> m] : s \in { t \in Seqs(MaxReads) : Sane(t) /\ t # <<>> }, b \in 0..2, m \in {"short", "err"} }
+                 : x.wbad # 0 \/ x.wmode = "short" }      \* wbad = 0: the writer never misbehaves (one copy of it)
 
 GenOut == Done => PrintT(ToJson([reads |-> sc.reads, wbad |-> sc.wbad, wmode |-> sc.wmode,
                                  delivered |-> delivered, result |-> result, writes |-> nw]))
